@@ -536,6 +536,80 @@ impl Family for ThroughBinary {
     }
 }
 
+
+/// Rejected specifications through the real binary: a usage error (exit status 2, a message on stderr, nothing
+/// compiled or generated), never a crash and never acceptance.
+pub struct RejectedThroughBinary {
+    strings: Vec<String>,
+}
+impl RejectedThroughBinary {
+    pub fn new(max_len: usize) -> Self {
+        let alpha = ['a', ' ', ',', '=', '\\'];
+        let mut all = vec![String::new()];
+        let mut frontier = vec![String::new()];
+        for _ in 0..max_len {
+            let mut next = vec![];
+            for f in &frontier {
+                for c in alpha {
+                    next.push(format!("{f}{c}"));
+                }
+            }
+            all.extend(next.iter().cloned());
+            frontier = next;
+        }
+        RejectedThroughBinary { strings: all.into_iter().filter(|s| ref_parse(s).is_err()).collect() }
+    }
+}
+impl Family for RejectedThroughBinary {
+    fn name(&self) -> String {
+        format!("rejected-through-the-binary/all {} strings of the short alphabet that the reference rejects (incl. the empty string), alone and after a valid -G", self.strings.len())
+    }
+    fn len(&self) -> u64 {
+        self.strings.len() as u64 * 2
+    }
+    fn hang_secs(&self) -> f64 {
+        120.0
+    }
+    fn describe(&self, idx: u64) -> Value {
+        json!({"generator_value": self.strings[(idx / 2) as usize], "after_a_valid_one": idx % 2 == 1})
+    }
+    fn run(&self, idx: u64) -> CaseOut {
+        use crate::proc::{encode_reply, run, Gen, Install, Node, Scenario, Script, Step};
+        let bad = &self.strings[(idx / 2) as usize];
+        let mut out = CaseOut::new(hash_str(&format!("c19rej{idx}")));
+        out.validated = 1;
+        out.nontrivial = true;
+        let fam = "c19/binary-rejected";
+        let mut sc = Scenario::default();
+        sc.tree.push(("a.slice".into(), Node::File(b"module M\nstruct S { x: int32 }\n".to_vec())));
+        sc.gens.push(Gen { name: "g0".into(), install: Install::Script(Script(vec![Step::ReadAll, Step::Stdout(encode_reply(&[], &[])), Step::Exit(0)])) });
+        sc.argv.push("a.slice".into());
+        if idx % 2 == 1 {
+            sc.argv.push("-G".into());
+            sc.argv.push("{gen0},k=v".into());
+        }
+        // `-G=<value>` so that a value starting with '-' or an empty value cannot be taken for something else
+        sc.argv.push(format!("--generator={bad}"));
+        let o = run(&sc, std::time::Duration::from_secs(30));
+        let desc = || format!("argv {:?}\nexit {:?} signal {:?}\nstderr {}", sc.argv, o.exit_code, o.signal, truncate(&o.stderr_text(), 500));
+        if o.timed_out || o.signal.is_some() || o.panic_location().is_some() {
+            out.violate(format!("{fam}/crash-or-hang"), desc());
+            return out;
+        }
+        if o.exit_code != Some(2) {
+            out.violate(format!("{fam}/not-a-usage-error"), format!("an invalid generator specification must be a usage error (exit status 2)\n{}", desc()));
+        }
+        if o.stderr.is_empty() {
+            out.violate(format!("{fam}/no-message"), desc());
+        }
+        if o.gens.iter().any(|g| g.started > 0) {
+            out.violate(format!("{fam}/generator-ran-despite-usage-error"), desc());
+        }
+        out.class = format!("exit{:?}", o.exit_code);
+        out
+    }
+}
+
 pub fn families(tier: &str) -> Vec<Box<dyn Family>> {
     let quick = tier == "quick";
     vec![
@@ -544,5 +618,6 @@ pub fn families(tier: &str) -> Vec<Box<dyn Family>> {
         Box::new(RoundTrip::new(if quick { 2 } else { 3 })),
         Box::new(Pairs::new()),
         Box::new(ThroughBinary::new(tier)),
+        Box::new(RejectedThroughBinary::new(if quick { 3 } else { 4 })),
     ]
 }
